@@ -3,6 +3,11 @@
 import json, subprocess, sys
 
 claimed = {
+ "C07": dict(
+   text="Deductive proof of the expression tokenizer for all input strings: quotedWord stops at exactly the closing quote of the Go string literal (reference qEnd; this obligation exposed the escaped-backslash defect — fixed), bareWord ends at the first white-space or operator rune (rune-level reference bwEnd), regexp/regexpParseUntil, and next: the tokenizer always looks at a suffix of the original text, so every token and error offset lies inside the text; every index and slice expression is safe (no panic); every loop terminates and every non-EOF token consumes input.  The recursive-descent parser above the tokenizer and the semantic rejections in NewFilter/makeProjection are not under contract: covered by a bounded stand-in (expressibility in every term position, rejection list, no panic on all short texts).",
+   note="Trusted: strconv.Unquote/Quote are functions of their argument (their being inverse is not proved), regexp.Compile, unicode.IsSpace (exact on ASCII/Latin-1), rune decoding of strings is utf8-shaped; string theory: uninterpreted Str with length/byte/substring axioms.",
+   technique="contract-based deductive verification (own VC generator over go/ssa; strings as an axiomatised sort; recursive reference functions; z3/cvc5) + bounded stand-in for the parser",
+   design="5/C07"),
  "C09": dict(
    text="Deductive proof that key comparison is the lexicographic order over flattened fields with the string fallback (less is verified against the reference lessFrom, missing values reading as empty), and that this order is irreflexive, asymmetric, transitive and total on keys that differ in some flattened field — four property lemmas proved by induction on the field index from the assumption that every field comparator is a total preorder.  The comparators themselves are under contract: alpha is bytewise, num is numOrder over the parsed numbers (numbers first, NaN last), fixed-list and first-observation comparators are rank differences; numOrder and rank difference are proved total preorders.  The fuzzy number parser, the flattened-field cache (sync.Once, recursive closure) and the observation counters are outside the subset: covered by a bounded stand-in (which exposed the missing ranks of .config sub-fields — fixed).",
    note="Trusted: parseNum is a function of its argument; strings.Compare spec; calls through function values with scalar signatures are pure functions of (function value, arguments); the link between a Field's cmp value and the comparator functions under contract is by construction in makeProjection (not proved); sort.Slice sorts with respect to a strict weak order.",
